@@ -10,8 +10,9 @@
     `cmpIntFloat`'s guards (constants `two63`, `two64` evaluated by go/constant) interpreted by
     `Gozod.Model.Dispatch` are the model's `cmpIntFloat`; `Lt/Lte/Gt/Gte` test the sign of the
     comparison exactly as `CmpOp.ofOrdering`.
-  * the texts of `cmpFloats`, `cmpInts`, `multipleOfInts`, `MultipleOf` (with its float
-    literals) are the ones the model was transcribed from (structure fingerprints).
+  * the text of `MultipleOf` (with its float literals) and the frames around the translated parts are
+    the ones the model was transcribed from (structure fingerprints); `cmpFloats`, `cmpInts`,
+    `multipleOfInts` are interpreted clause by clause in `Proofs/C16Arms.lean`.
   * every numeric method of the integer and float schemas resolves, through `internal/checks`,
     to the `validate` function and literal bound the documentation states.
 -/
@@ -184,27 +185,10 @@ theorem check_ctors : checkCtors = [
   ("NonNegative", "Gte", [0])
 ] := by decide
 
-theorem cmpFloats_arms : Gen.NumDispatch.cmpFloats = [
-  ("math.IsNaN(x) || math.IsNaN(y)", "return 0, false"),
-  ("x < y", "return -1, true"),
-  ("x > y", "return 1, true"),
-  ("default", "return 0, true")
-] := by decide
-
-theorem cmpInts_arms : Gen.NumDispatch.cmpInts = [
-  ("a.kind == numInt && b.kind == numInt", "return cmp.Compare(a.i, b.i)"),
-  ("a.kind == numUint && b.kind == numUint", "return cmp.Compare(a.u, b.u)"),
-  ("a.kind == numInt", "if a.i < 0 { return -1 }; return cmp.Compare(uint64(a.i), b.u)"),
-  ("default", "if b.i < 0 { return 1 }; return cmp.Compare(a.u, uint64(b.i))")
-] := by decide
-
-set_option maxRecDepth 100000 in
-theorem multipleOfInts_arms : Gen.NumDispatch.multipleOfInts = [
-  ("a.kind == numInt && b.kind == numInt", "return b.i != 0 && a.i%b.i == 0"),
-  ("a.kind == numUint && b.kind == numUint", "return b.u != 0 && a.u%b.u == 0"),
-  ("a.kind == numUint", "if b.i == 0 { return false }; m := uint64(b.i); if b.i < 0 { m = uint64(-(b.i + 1)) + 1 }; return a.u%m == 0"),
-  ("default", "if b.u == 0 { return false }; if b.u > math.MaxInt64 { return a.i == 0 || (a.i == math.MinInt64 && b.u == 1<<63) }; return a.i%int64(b.u) == 0")
-] := by decide
+/- The text fingerprints of `cmpFloats`, `cmpInts`, `multipleOfInts` (round 4) are gone: their bodies are
+   translated clause by clause and interpreted (`Proofs/C16Arms.lean`: `cmpFloats_table`, `cmpInts_table`,
+   `multipleOfInts_table`), so a re-spelling that keeps the meaning no longer raises an alarm and a change of
+   meaning fails a semantic obligation. -/
 
 theorem multipleOf_consts : MultipleOf_consts = [("1e-10", 4457293557087583675), ("1e-6", 4517329193108106637)] := by decide
 
